@@ -367,7 +367,7 @@ func ttyApplyRef(r *refTerm, op ttyOp) {
 // ttyValidCons rejects console descriptions outside the generated domain
 // (hand-edited replay files).
 func ttyValidCons(c ttyCons) error {
-	if c.W < 1 || c.H < 1 || c.W > 400 || c.H > 200 {
+	if c.W < 1 || c.H < 1 || c.W > 640 || c.H > 200 {
 		return fmt.Errorf("console grid %dx%d outside the generated domain", c.W, c.H)
 	}
 	switch c.Kind {
@@ -453,6 +453,14 @@ func ttyGenChunk(t *rapid.T) []int {
 func ttyGenCoord(t *rapid.T, label string) uint32 {
 	switch rapid.IntRange(0, 9).Draw(t, label+"class") {
 	case 9: // ~10%
+		if rapid.Bool().Draw(t, label+"wrap") {
+			// far outside the viewport, but its 32-bit product with a stride the terminal may
+			// multiply coordinates by (3 bytes per cell, 3*width bytes per line) wraps to a
+			// small number: v = ceil(k*2^32/m) + d
+			m := uint64(3 * rapid.IntRange(1, 14).Draw(t, label+"stride"))
+			k := uint64(rapid.IntRange(1, int(m)-1).Draw(t, label+"wrapk"))
+			return uint32((k<<32+m-1)/m + uint64(rapid.IntRange(0, 15).Draw(t, label+"wrapd")))
+		}
 		return rapid.SampledFrom([]uint32{1<<32 - 1, 1 << 31, 1 << 16, 256, 255}).Draw(t, label+"huge")
 	case 8: // ~7%
 		return rapid.Uint32Range(0, 210).Draw(t, label+"wide")
